@@ -35,6 +35,7 @@ type verifBank struct {
 	supply   []verifSupply
 	calls    []verifBankCall
 	blocked  []string
+	failAll  bool // when set, every transfer / burn fails
 	faults   bool // when set, every transfer / burn consults a fresh symbolic fault flag
 	nfault   int
 	faultLog []bool
@@ -157,6 +158,9 @@ func (a *verifAuth) SetModuleAccount(ctx sdk.Context, macc authtypes.ModuleAccou
 // ---------------------------------------------------------------- bank
 
 func (b *verifBank) fault() bool {
+	if b.failAll {
+		return true
+	}
 	if !b.faults {
 		return false
 	}
